@@ -18,7 +18,7 @@ func init() {
 		Level: "exploration",
 		Rule: "per-PID packet sequences from the reference multiplexer (3..8 PIDs, some deliberately damaged: gaps, duplicates, garbage payloads, truncated units) merged in K random and extreme " +
 			"order-preserving ways, all merges of micro streams (2 PIDs x 4 packets = 70, 3 PIDs x 3 packets = 1680), null / adaptation-only / transport-error packets inserted at every position, " +
-			"and single-PID corruptions; every variant's per-PID delivered sequence is compared with a canonical merge; distinct = hash of the merged byte stream; non-trivial = ≥2 PIDs delivered data",
+			"and single-PID corruptions; every variant's per-PID delivered sequence is compared with a canonical merge; plus multiplexes of 255..8000 PIDs judged against what each PID's own packets carry (stage many-pids); distinct = hash of the merged byte stream; non-trivial = ≥2 PIDs delivered data",
 		Assumptions: []string{"the PAT unit announcing a PMT PID is complete before that PID's first packet in every merge (the dependence the property allows)",
 			"errors returned by NextData are not units and are ignored when comparing per-PID sequences", "corruptions never touch the sync byte or the PID field"},
 		Shards: 32,
@@ -32,6 +32,7 @@ func init() {
 			need(m, &out, "corruptions_compared", 500)
 			need(m, &out, "models_with_damaged_pid", 20)
 			need(m, &out, "long_gap_merges", 8)
+			need(m, &out, "many_pid_multiplexes", 8)
 			needSet(m, &out, "interleaving_signatures", 2000)
 			return out
 		},
@@ -568,6 +569,32 @@ func runC07(c *mon.Ctx) {
 			c.Violate("C07/panic", "long-gap", li, run.Panic, nil)
 		} else if d := comparePerPID(got, base, map[uint16]bool{0x1fff: true}); d != "" {
 			c.Violate("C07/merge-changes-output:long-gap", "long-gap", li, fmt.Sprintf("%d packets of other PIDs between the units of pid %#x: %s", gap, sparse, d), nil)
+		}
+	}
+	// (a'') many PIDs: hundreds to thousands of PIDs in one multiplex (255, 256, 257 among the counts): what a PID delivers is what its
+	// own packets carry, however many other PIDs there are and whenever they first appeared
+	pidCounts := []int{255, 256, 257, 300, 1024, 1025, 4097, 8000}
+	for mi := int64(0); mi < c.Pick(int64(len(pidCounts)), int64(6*len(pidCounts))); mi++ {
+		if !c.Mine("many-pids", mi) {
+			continue
+		}
+		r := c.Rng("many-pids", mi)
+		np := pidCounts[int(mi)%len(pidCounts)]
+		if int(mi) >= len(pidCounts) {
+			np = 200 + r.IntN(7900)
+		}
+		s := manyPIDsStream(r, np)
+		ds, errs, pn := drainData(s.b)
+		c.Count("many_pid_multiplexes")
+		c.Max("most_pids_in_one_multiplex", int64(np))
+		c.Case(mon.HashStr("manypids", fmt.Sprint(mi, np)), true)
+		data := map[string]any{"pids": np, "packets": s.n}
+		if pn != "" {
+			c.Violate("C07/panic", "many-pids", mi, pn, data)
+		} else if len(errs) > 0 {
+			c.Violate("C07/many-pids/error-on-wellformed-stream", "many-pids", mi, fmt.Sprint(errs[0]), data)
+		} else if d := s.compare(ds); d != "" {
+			c.Violate("C07/merge-changes-output:many-pids", "many-pids", mi, fmt.Sprintf("%d PIDs in one multiplex: %s", np, d), data)
 		}
 	}
 	// (b) exhaustive merges of micro streams
